@@ -3,6 +3,7 @@
 package verifh
 
 import (
+	"errors"
 	"context"
 	"fmt"
 	"strings"
@@ -94,12 +95,24 @@ func suiteMap(t *testing.T, cfg cfgT) {
 			for _, tu := range ts {
 				in = append(in, fmtTuple(tu))
 			}
+			rolledBack := hr.chance(1, 3)
+			if rolledBack {
+				out.stat("batch.after_rollback")
+			}
 			obs := func() (res string) {
 				defer func() {
 					if rc := recover(); rc != nil {
 						res = "panic"
 					}
 				}()
+				if rolledBack {
+					// the same names were first mapped inside a transaction that is rolled back (a failed write request, then
+					// the client retries): nothing of that attempt may survive, in the database or in the process
+					_ = e.reg.Transactor().Transaction(ctx, func(ctx context.Context) error {
+						_, _ = e.reg.Mapper().FromTuple(ctx, ts...)
+						return errors.New("rolled back on purpose")
+					})
+				}
 				its, err := e.reg.Mapper().FromTuple(ctx, ts...)
 				if err != nil {
 					return fmt.Sprintf("err %d", mapErrClass(err))
